@@ -53,7 +53,9 @@ impl TryFrom<VarInt> for NatType {
     type Error = io::Error;
 
     fn try_from(value: VarInt) -> Result<Self, Self::Error> {
-        Self::try_from(value.into_u64() as u8)
+        let value = u8::try_from(value.into_u64())
+            .map_err(|_| io::Error::new(io::ErrorKind::InvalidInput, "Invalid value for NatType"))?;
+        Self::try_from(value)
     }
 }
 
